@@ -14,7 +14,7 @@ fn spec_strategy(wasm_only: bool) -> BoxedStrategy<SubSpec> {
     } else {
         vec!["bank_send", "bank_burn", "wasm_exec", "wasm_inst", "staking", "distribution", "stargate", "ibc", "gov", "custom"]
     };
-    (0..kinds.len(), any::<u64>(), proptest::option::of(any::<u64>()), 0u8..4, proptest::collection::vec(any::<u8>(), 0..12), any::<u32>(), "[a-z0-9]{1,12}")
+    (0..kinds.len(), u64_edges(), proptest::option::of(u64_edges()), 0u8..4, proptest::collection::vec(any::<u8>(), 0..12), any::<u32>(), "[a-z0-9]{1,12}")
         .prop_map(move |(k, id, gas_limit, reply_on, payload, n, text)| SubSpec { kind: kinds[k].to_string(), id, gas_limit, reply_on, payload, n, text })
         .boxed()
 }
